@@ -393,6 +393,10 @@ structure Obs where
   /-- assigning every field on an instance of the slotted build and of the dict build of the same class runs
       the same hooks with the same outcome -/
   assignAgree : Bool
+  /-- derived lookups on an instance that did NOT behave as a failed lookup must (`hasattr(inst, unknown)` is
+      False, `getattr(inst, unknown, d)` is `d`, `copy.copy` / `copy.deepcopy` work — they probe optional dunders on
+      the instance): observed; all of them follow from "an unknown attribute raises AttributeError" -/
+  lookupDiff : List String
   /-- runtime identity facts that do NOT hold (type, name, qualname, module, doc, bases): observed only -/
   runtimeDiff : List String
   deriving DecidableEq, Repr, FromJson, ToJson, Inhabited
@@ -451,6 +455,7 @@ def model (c : Case) : Obs :=
     hookView := [],
     -- both builds resolve the same `__setattr__` for every field iff they decide the reset alike
     assignAgree := slotsResetOf c == dictReset c,
+    lookupDiff := [],
     runtimeDiff := [] }
 
 /-! ## `__attrs_init_subclass__` along a chain of builds (dict and slotted) -/
